@@ -25,6 +25,8 @@ func propC05() *Property {
 			{ID: "C05.R2", Title: "no error dropped on the fetch path; values used only under err == nil", Floor: 129, Run: c05R2},
 			{ID: "C05.R4", Title: "NewFailure never receives a possibly-nil error", Floor: 18, Run: c05R4},
 			{ID: "C05.R5", Title: "a response head cut off mid-line is never parsed as a line", Floor: 3, Run: wholeLines},
+			{ID: "C05.R6", Title: "the fetch path keeps no unsynchronised shared state (concurrent faults cannot crash the process)", Floor: 28, Run: c08R6},
+			{ID: "C05.R7", Title: "whatever a fetch may block on is released on every path, the error paths included", Floor: 0, Run: c05R7},
 		},
 	}
 }
@@ -776,4 +778,111 @@ func allocReadsGuarded(P *Program, a *ssa.Alloc, e ssa.Value) string {
 	}
 	visit(root, nil)
 	return msg
+}
+
+// c05R7: a fetch must end, also after earlier fetches failed. Blocking
+// primitives that are not bounded by the connection deadline — a slot of a
+// channel used as a semaphore, a token taken from a channel — must be given
+// back on every path from the acquisition to every return of the function
+// (directly or by a defer), the early returns of error paths included. A slot
+// that leaks on the error path makes every fetch after the n-th fault block
+// for ever, before it even reaches the code that has a deadline. (Mutex
+// pairing is C08.R3, which covers the whole module; WaitGroups C08.R5.)
+func c05R7(c *Ctx) {
+	P := c.P
+	n := 0
+	chanOf := func(in ssa.Instruction) (ssa.Value, string) {
+		switch x := in.(type) {
+		case *ssa.Send:
+			return x.Chan, "send"
+		case *ssa.UnOp:
+			if x.Op == token.ARROW {
+				return x.X, "recv"
+			}
+		}
+		return nil, ""
+	}
+	for _, fn := range P.Funcs {
+		fname := FuncName(fn)
+		eachInstr(fn, func(b *ssa.BasicBlock, idx int, in ssa.Instruction) {
+			ch, kind := chanOf(in)
+			if ch == nil {
+				return
+			}
+			// only channels that outlive the call: package-level or captured
+			cp := path(ch)
+			if !strings.HasPrefix(cp, "global:") && !strings.Contains(cp, "cell:") && !strings.HasPrefix(cp, "param:") {
+				return
+			}
+			// is this the acquiring side? the first operation on the channel on its path from the entry
+			acquired := true
+			eachInstr(fn, func(b2 *ssa.BasicBlock, _ int, in2 ssa.Instruction) {
+				if in2 == in {
+					return
+				}
+				if ch2, _ := chanOf(in2); ch2 != nil && path(ch2) == cp && dominatesInstr(in2, in) {
+					acquired = false // an earlier operation on the same channel dominates this one: this is the release
+				}
+			})
+			if !acquired {
+				return
+			}
+			n++
+			opposite := map[string]string{"send": "recv", "recv": "send"}[kind]
+			isRelease := func(in2 ssa.Instruction) bool {
+				if ch2, k2 := chanOf(in2); ch2 != nil && k2 == opposite && path(ch2) == cp {
+					return true
+				}
+				if df, ok := in2.(*ssa.Defer); ok {
+					var cl *ssa.Function
+					switch f := df.Call.Value.(type) {
+					case *ssa.MakeClosure:
+						cl = f.Fn.(*ssa.Function)
+					case *ssa.Function:
+						cl = f
+					}
+					found := false
+					if cl != nil {
+						eachInstr(cl, func(_ *ssa.BasicBlock, _ int, in3 ssa.Instruction) {
+							if ch3, k3 := chanOf(in3); ch3 != nil && k3 == opposite && path(ch3) == cp {
+								found = true
+							}
+						})
+					}
+					return found
+				}
+				return false
+			}
+			// a return reachable from the acquisition without passing a release
+			leak := ""
+			seen := map[*ssa.BasicBlock]bool{}
+			var walk func(blk *ssa.BasicBlock, start int) bool
+			walk = func(blk *ssa.BasicBlock, start int) bool {
+				for i := start; i < len(blk.Instrs); i++ {
+					if isRelease(blk.Instrs[i]) {
+						return false
+					}
+					if r, ok := blk.Instrs[i].(*ssa.Return); ok {
+						leak = P.InstrPos(r)
+						return true
+					}
+				}
+				for _, s := range blk.Succs {
+					if seen[s] {
+						continue
+					}
+					seen[s] = true
+					if walk(s, 0) {
+						return true
+					}
+				}
+				return false
+			}
+			leaks := walk(b, idx+1)
+			c.check(!leaks, fname+"/released:"+kind, P.InstrPos(in), fname, "the slot taken here is given back on every path to every return",
+				"what is taken from the channel here is not given back on the path to the return at "+leak+": after enough fetches have left through that path (an error, typically) every later fetch blocks for ever, beyond the reach of any deadline")
+		})
+	}
+	c.info("blocking_acquisitions", n)
+	c.ok("module/blocking-acquisitions", "", "module", fmt.Sprintf("%d channel acquisitions in the module, each checked for release on every path", n))
 }
